@@ -11,6 +11,24 @@ import (
 	verif "github.com/platinummonkey/go-concurrency-limits/zz_verifrt"
 )
 
+
+// verifEffective: the backlog bound and timeout the queue limiter documents for the given arguments
+// (non-positive bound -> 100; negative timeout -> 0 at the pool, zero timeout -> 1 s at the limiter).
+func verifEffective(backlog int, to int64) (uint64, time.Duration) {
+	mb := uint64(100)
+	if backlog > 0 {
+		mb = uint64(backlog)
+	}
+	if to < 0 {
+		to = 0
+	}
+	qto := time.Duration(to)
+	if to == 0 {
+		qto = time.Second
+	}
+	return mb, qto
+}
+
 // VerifC19_FixedPool_Composition: NewFixedPool builds the documented stack for every ordering and
 // every limit/backlog/timeout: a precise strategy enforcing exactly the fixed limit under a default
 // limiter with a fixed limit algorithm, wrapped by a queue limiter with the requested FIFO/LIFO
@@ -22,18 +40,23 @@ func VerifC19_FixedPool_Composition() {
 	lim := verif.Int("limit")
 	backlog := verif.Int("maxBacklog")
 	to := verif.Int64("timeout")
-	verif.Assume(lim >= 1 && lim < 1<<31 && backlog >= 1 && backlog < 1<<31 && to >= 1 && to < 1<<60)
+	verif.Assume(lim >= 1 && lim < 1<<31 && backlog > -(1<<31) && backlog < 1<<31 && to > -(1<<60) && to < 1<<60)
+	wantMB, wantTO := verifEffective(backlog, to)
+	blockTO := time.Duration(to)
+	if to < 0 {
+		blockTO = 0
+	}
 	p, err := NewFixedPool("p", ord, lim, 100, time.Second, time.Second, time.Millisecond, backlog, time.Duration(to), nil, nil)
 	verif.Assert("fixedpool-constructed", err == nil && p != nil)
 	verif.Assert("fixedpool-accessors", p.Limit() == lim && p.Ordering() == ord)
 	kind, qo, mb, qto, delegate := limiter.VerifDescribe(p.limiter)
 	switch ord {
 	case OrderingFIFO:
-		verif.Assert("fixedpool-fifo-queue", kind == "queue" && qo == limiter.OrderingFIFO && mb == uint64(backlog) && qto == time.Duration(to))
+		verif.Assert("fixedpool-fifo-queue", kind == "queue" && qo == limiter.OrderingFIFO && mb == wantMB && qto == wantTO)
 	case OrderingLIFO:
-		verif.Assert("fixedpool-lifo-queue", kind == "queue" && qo == limiter.OrderingLIFO && mb == uint64(backlog) && qto == time.Duration(to))
+		verif.Assert("fixedpool-lifo-queue", kind == "queue" && qo == limiter.OrderingLIFO && mb == wantMB && qto == wantTO)
 	default:
-		verif.Assert("fixedpool-random-blocking", kind == "blocking" && qto == time.Duration(to))
+		verif.Assert("fixedpool-random-blocking", kind == "blocking" && qto == blockTO)
 	}
 	dl, ok := delegate.(*limiter.DefaultLimiter)
 	verif.Assert("fixedpool-default-limiter", ok)
@@ -51,21 +74,40 @@ func VerifC19_Pool_Composition() {
 	ord := []Ordering{OrderingRandom, OrderingFIFO, OrderingLIFO}[verif.Choice("ordering", 3)]
 	backlog := verif.Int("maxBacklog")
 	to := verif.Int64("timeout")
-	verif.Assume(backlog >= 1 && backlog < 1<<31 && to >= 1 && to < 1<<60)
+	verif.Assume(backlog > -(1<<31) && backlog < 1<<31 && to > -(1<<60) && to < 1<<60)
+	wantMB, wantTO := verifEffective(backlog, to)
+	blockTO := time.Duration(to)
+	if to < 0 {
+		blockTO = 0
+	}
 	inner, _ := limiter.NewDefaultLimiterWithDefaults("x", strategy.NewPreciseStrategy(3), nil, nil)
 	p, err := NewPool(inner, ord, backlog, time.Duration(to), nil, nil)
 	verif.Assert("pool-constructed", err == nil && p != nil)
 	kind, qo, mb, qto, delegate := limiter.VerifDescribe(p.limiter)
 	switch ord {
 	case OrderingFIFO:
-		verif.Assert("pool-fifo-queue", kind == "queue" && qo == limiter.OrderingFIFO && mb == uint64(backlog) && qto == time.Duration(to))
+		verif.Assert("pool-fifo-queue", kind == "queue" && qo == limiter.OrderingFIFO && mb == wantMB && qto == wantTO)
 	case OrderingLIFO:
-		verif.Assert("pool-lifo-queue", kind == "queue" && qo == limiter.OrderingLIFO && mb == uint64(backlog) && qto == time.Duration(to))
+		verif.Assert("pool-lifo-queue", kind == "queue" && qo == limiter.OrderingLIFO && mb == wantMB && qto == wantTO)
 	default:
-		verif.Assert("pool-random-blocking", kind == "blocking" && qto == time.Duration(to))
+		verif.Assert("pool-random-blocking", kind == "blocking" && qto == blockTO)
 	}
 	verif.Assert("pool-wraps-delegate", delegate == core.Limiter(inner))
 	_, errNil := NewPool(nil, ord, backlog, time.Duration(to), nil, nil)
 	verif.Assert("pool-nil-delegate-rejected", errNil != nil)
 	verif.Reach("end")
+}
+
+// VerifC11_Pool_Orderings: the pool constructors install the queue ordering their argument names
+// (FIFO -> FIFO, LIFO -> LIFO, random -> blocking limiter) for every backlog bound and timeout,
+// including the non-positive values that select the documented defaults (same bodies as the C19
+// composition harnesses).
+//
+//verif:harness property=C11 theory=bv tier=quick
+func VerifC11_Pool_Orderings() {
+	if verif.Choice("constructor", 2) == 0 {
+		VerifC19_FixedPool_Composition()
+	} else {
+		VerifC19_Pool_Composition()
+	}
 }
